@@ -786,6 +786,28 @@ def simplest_between(lo, hi):
     return fl + 1 / r
 
 
+_PI_Q = Fraction(314159265358979323846264338327950288419716939937510582097494459230781640628620899, 10 ** 80)
+
+
+def snap_pi(v, ty, maxden=1 << 12):
+    """(q, inverse) with round_ty(q*pi) == v  (inverse: round_ty(q/pi) == v) for a simple rational q, or None"""
+    if v == 0:
+        return None
+    p = PREC[ty]
+    s = -1 if v < 0 else 1
+    a = abs(v)
+    e = a.numerator.bit_length() - a.denominator.bit_length()
+    if Fraction(2) ** e > a:
+        e -= 1
+    ulp = Fraction(2) ** (e - p + 1)
+    for inverse in (False, True):
+        b = 1 / _PI_Q if inverse else _PI_Q
+        r = simplest_between((a - ulp * Fraction(511, 1024)) / b, (a + ulp * Fraction(511, 1024)) / b)
+        if r.denominator <= maxden and r.numerator <= maxden and round_to(r * b, p) == a:
+            return s * r, inverse
+    return None
+
+
 def snap(v, ty, maxden=1 << 20):
     """simplest rational r with round_ty(r) == v, or None"""
     if v == 0:
